@@ -78,7 +78,15 @@ Section Spec.
   (* the extension attributes / text of an AttributeValueBase instance are in the state parsing
      leaves them in (xsi:type and text agree, xsi:nil only on an empty value, ...) *)
   Definition av_fix_b (ext : list ee) (xa : attrs) (tx : option string) : bool :=
-    match av_finish ext (dset_all qname_eqb av_init_xattrs (wire_attrs xa)) (norm_eol (text_str tx)) with
+    match av_finish (dmem qname_eqb xsi_nil xa) ext (dset_all qname_eqb av_init_xattrs (wire_attrs xa))
+                    (norm_eol (text_str tx)) with
+    | AvOk xa' tx' => attrs_eqb xa' xa && opt_eqb String.eqb tx' tx
+    | _ => false
+    end.
+
+  (* the same against the parsing side as it was before fix c1c601fb (finding C12-F5) *)
+  Definition av_fix_f5v0_b (ext : list ee) (xa : attrs) (tx : option string) : bool :=
+    match av_finish_f5v0 ext (dset_all qname_eqb av_init_xattrs (wire_attrs xa)) (norm_eol (text_str tx)) with
     | AvOk xa' tx' => attrs_eqb xa' xa && opt_eqb String.eqb tx' tx
     | _ => false
     end.
